@@ -245,20 +245,15 @@ theorem countKw_max_cases (k : Str) {o : Option Nat} (h : CountPos o) :
 set_option maxHeartbeats 2000000 in
 theorem string_rules_iff (c : FCard) (hc : c.isScalar = true) (i64n : Bool) (r : FieldRules)
     (hmin : CountOK r.minLen) (hmax : CountPos r.maxLen)
-    (hin : ∀ v ∈ r.strIn, staysString v = true) (hconst : ∀ v, r.strConst = some v → staysString v = true)
     (s : Str) (fuel : Nat) :
     accepts [] (fuel + 1) (Impl.fieldSchema .string c i64n r) (jsonForm .string i64n (.one (.str s)))
       = Spec.satisfies .string c r (.one (.str s)) := by
   rw [accepts_scalar_core _ _ _ _ hc]
   obtain ⟨req, minLen, maxLen, pat, strIn, strConst, fmt, group, gt, gte, lt, lte, numIn, numConst, minItems, maxItems, unique, minPairs, maxPairs⟩ := r
-  simp only at hmin hmax hin hconst
-  simp only [Impl.scalarCore, hc, if_true, Impl.stringCore, Impl.baseCore, jsonForm, jsonScalar, Spec.satisfies,
-    Spec.scalarOk, Spec.strOk, Bool.true_and, map_yamlScalar_of_staysString hin]
-  have hcst : strConst.map yamlScalar = strConst.map Json.str := by
-    cases strConst with
-    | none => rfl
-    | some v => simp [yamlScalar_of_staysString (hconst v rfl)]
-  rw [hcst]
+  simp only at hmin hmax
+  have hlit : Impl.stringLit = Json.str := rfl
+  simp only [Impl.scalarCore, hc, if_true, Impl.stringCore, Impl.stringCoreWith, hlit, Impl.baseCore, jsonForm, jsonScalar, Spec.satisfies,
+    Spec.scalarOk, Spec.strOk, Bool.true_and]
   rcases countKw_min_cases K.minLength hmin with ⟨e1, s1⟩ | ⟨n, hn, rfl, e1⟩ <;>
   rcases countKw_max_cases K.maxLength hmax with ⟨rfl, e2⟩ | ⟨m, rfl, e2⟩ <;>
   rw [e1, e2] <;> cases strConst <;> cases strIn <;>
